@@ -40,8 +40,12 @@ class Impl:
         argv = ["tlexport", "-i", inp, "-o", outp]
         if keylog_text is not None:
             kp = os.path.join(self.tmp, "keys.log")
-            with open(kp, "w", newline="") as f:
-                f.write(keylog_text)
+            if isinstance(keylog_text, bytes):                  # a key log given byte for byte (non-ASCII decorations)
+                with open(kp, "wb") as f:
+                    f.write(keylog_text)
+            else:
+                with open(kp, "w", newline="") as f:
+                    f.write(keylog_text)
             argv += ["-s", kp]
         argv += list(args)
         old = sys.argv
